@@ -389,3 +389,137 @@ Qed.
 Theorem roundtrip_full t : wf_table' t = true ->
   exists t', of_bytes (to_bytes t) = Ok t' /\ read_bytes (to_bytes t) = Ok t' /\ table_eq_upto_padding t t'.
 Proof. intros W. apply roundtrip_bytes; [apply wf_table'_wf_table|apply wf_doc_to_doc]; exact W. Qed.
+
+(* ================================================================================================ *)
+(* H. "the reloaded table compares equal": model of splinetable::operator== (include/photospline/splinetable.h 349-368)
+
+     if (ndim != other.ndim) return false;
+     if (ndim == 0) return true;
+     if (!std::equal(order,order+ndim,other.order)) return false;                    uint32_t ==
+     if (!std::equal(naxes,naxes+ndim,other.naxes)) return false;                    uint64_t ==
+     if (!std::equal(nknots,nknots+ndim,other.nknots)) return false;                 uint64_t ==
+     for i: if (!std::equal(knots[i],knots[i]+nknots[i],other.knots[i])) return false;     double ==  (IEEE)
+     if (get_ncoeffs() != other.get_ncoeffs()) return false;                         product of naxes
+     if (!std::equal(coefficients,coefficients+get_ncoeffs(),other.coefficients)) return false;   float ==  (IEEE)
+     return true;
+
+   Floating-point == on bit patterns: false when either side is a NaN, true for +0 == -0, otherwise equality of the
+   patterns.  Arrays are lists here; their lengths stand for ndim / nknots[i] (the class invariant), so std::equal over a
+   stated count is list_eqb (equal lengths and pointwise ==).  get_ncoeffs is the unbounded product (no wrap at 2^64).
+   Auxiliary keys, extents, periods and strides are NOT compared by operator==. *)
+Definition is_nan32 (w : N) : bool := ((w / 8388608) mod 256 =? 255) && negb (w mod 8388608 =? 0).
+Definition is_nan64 (w : N) : bool := ((w / 4503599627370496) mod 2048 =? 2047) && negb (w mod 4503599627370496 =? 0).
+Definition feq32 (a b : N) : bool :=
+  negb (is_nan32 a) && negb (is_nan32 b) && ((a =? b) || ((a mod two31N =? 0) && (b mod two31N =? 0))).
+Definition feq64 (a b : N) : bool :=
+  negb (is_nan64 a) && negb (is_nan64 b) && ((a =? b) || ((a mod two63N =? 0) && (b mod two63N =? 0))).
+
+Fixpoint list_eqb {A} (eq : A -> A -> bool) (a b : list A) : bool :=
+  match a, b with
+  | [], [] => true
+  | x :: a', y :: b' => eq x y && list_eqb eq a' b'
+  | _, _ => false
+  end.
+
+Definition ncoeffs (t : table) : N := prodN (t_naxes t).
+
+Definition table_op_eq (a b : table) : bool :=
+  if negb (t_ndim a =? t_ndim b)%nat then false else
+  if (t_ndim a =? 0)%nat then true else
+  list_eqb N.eqb (t_order a) (t_order b) &&
+  list_eqb N.eqb (t_naxes a) (t_naxes b) &&
+  list_eqb Nat.eqb (map (@length N) (t_knots a)) (map (@length N) (t_knots b)) &&
+  list_eqb (list_eqb feq64) (t_knots a) (t_knots b) &&
+  (ncoeffs a =? ncoeffs b) &&
+  list_eqb feq32 (firstn (N.to_nat (ncoeffs a)) (t_coeffs a)) (firstn (N.to_nat (ncoeffs a)) (t_coeffs b)).
+
+Definition nan_free (t : table) : bool :=
+  forallb (fun w => negb (is_nan32 w)) (t_coeffs t) && forallb (forallb (fun w => negb (is_nan64 w))) (t_knots t).
+
+Lemma feq32_self w : feq32 w w = negb (is_nan32 w).
+Proof. unfold feq32. rewrite N.eqb_refl. destruct (is_nan32 w); reflexivity. Qed.
+Lemma feq64_self w : feq64 w w = negb (is_nan64 w).
+Proof. unfold feq64. rewrite N.eqb_refl. destruct (is_nan64 w); reflexivity. Qed.
+
+Lemma list_eqb_refl {A} (eq : A -> A -> bool) l : forallb (fun x => eq x x) l = true -> list_eqb eq l l = true.
+Proof. induction l as [|x l IH]; [reflexivity|]. cbn. intros H. apply andb_true_iff in H as [H1 H2]. rewrite H1, IH; auto. Qed.
+
+Lemma forallb_impl {A} (P Q : A -> bool) l : (forall x, In x l -> P x = true -> Q x = true) -> forallb P l = true -> forallb Q l = true.
+Proof. intros H F. rewrite forallb_forall in *. intros x Hx. apply H; auto. Qed.
+
+Lemma firstn_forallb {A} (P : A -> bool) n l : forallb P l = true -> forallb P (firstn n l) = true.
+Proof.
+  revert n. induction l as [|a l IH]; intros n F; [destruct n; reflexivity|]. destruct n as [|n]; [reflexivity|].
+  cbn [firstn forallb] in *. apply andb_true_iff in F as [F1 F2]. rewrite F1, IH; auto.
+Qed.
+
+Lemma table_op_eq_self t : nan_free t = true -> table_op_eq t t = true.
+Proof.
+  unfold nan_free, table_op_eq. intros W. apply andb_true_iff in W as [WC WK].
+  rewrite Nat.eqb_refl. cbn [negb]. destruct (t_ndim t =? 0)%nat; [reflexivity|].
+  rewrite N.eqb_refl, !list_eqb_refl; [reflexivity| | | | |].
+  - apply firstn_forallb. eapply forallb_impl; [|exact WC]. intros x _ H. rewrite feq32_self. exact H.
+  - eapply forallb_impl; [|exact WK]. intros k _ H. apply list_eqb_refl.
+    eapply forallb_impl; [|exact H]. intros x _ Hx. rewrite feq64_self. exact Hx.
+  - apply forallb_forall. intros x _. apply Nat.eqb_refl.
+  - apply forallb_forall. intros x _. apply N.eqb_refl.
+  - apply forallb_forall. intros x _. apply N.eqb_refl.
+Qed.
+
+(* every field operator== reads is equal in the reloaded table, hence it compares exactly like the original *)
+Lemma reload_fields t t' : table_eq_upto_padding t t' ->
+  t_ndim t' = t_ndim t /\ t_order t' = t_order t /\ t_naxes t' = t_naxes t /\
+  map (@length N) (t_knots t') = map (@length N) (t_knots t) /\ t_knots t' = t_knots t /\
+  ncoeffs t' = ncoeffs t /\ t_coeffs t' = t_coeffs t.
+Proof.
+  intros (O & K & A & _ & C & _). unfold t_ndim, ncoeffs. rewrite O, K, A, C. repeat split; reflexivity.
+Qed.
+
+Lemma reload_compares_as_original t t' : table_eq_upto_padding t t' ->
+  forall x, table_op_eq t' x = table_op_eq t x /\ table_op_eq x t' = table_op_eq x t.
+Proof.
+  intros (O & K & A & _ & C & _) x. unfold table_op_eq, t_ndim, ncoeffs. rewrite O, K, A, C. split; reflexivity.
+Qed.
+
+Theorem reload_compares_equal t t' : table_eq_upto_padding t t' -> nan_free t = true ->
+  table_op_eq t' t = true /\ table_op_eq t t' = true.
+Proof.
+  intros Q NF. destruct (reload_compares_as_original t t' Q t) as [E1 E2]. rewrite E1, E2.
+  split; apply table_op_eq_self; exact NF.
+Qed.
+
+Theorem reload_compares_equal_all t t' : table_eq_upto_padding t t' ->
+  (t_ndim t' = t_ndim t /\ t_order t' = t_order t /\ t_naxes t' = t_naxes t /\
+   map (@length N) (t_knots t') = map (@length N) (t_knots t) /\ t_knots t' = t_knots t /\
+   ncoeffs t' = ncoeffs t /\ t_coeffs t' = t_coeffs t) /\
+  (forall x, table_op_eq t' x = table_op_eq t x /\ table_op_eq x t' = table_op_eq x t) /\
+  (nan_free t = true -> table_op_eq t' t = true /\ table_op_eq t t' = true).
+Proof.
+  intros Q. split; [apply reload_fields; exact Q|]. split; [apply reload_compares_as_original; exact Q|].
+  apply reload_compares_equal; exact Q.
+Qed.
+
+(* the NaN caveat: a table holding a NaN among its first ncoeffs coefficients is not == to anything, itself included *)
+Lemma list_eqb_feq32_nan a b w : In w a -> is_nan32 w = true -> list_eqb feq32 a b = false.
+Proof.
+  revert b. induction a as [|x a IH]; intros b I NW; [contradiction|]. destruct b as [|y b]; [reflexivity|].
+  cbn [list_eqb]. destruct I as [->|I].
+  - unfold feq32. rewrite NW. reflexivity.
+  - rewrite (IH b I NW). apply andb_false_r.
+Qed.
+
+Theorem nan_compares_unequal t x w : (0 < t_ndim t)%nat -> In w (firstn (N.to_nat (ncoeffs t)) (t_coeffs t)) ->
+  is_nan32 w = true -> table_op_eq t x = false.
+Proof.
+  intros ND I NW. unfold table_op_eq. destruct (negb (t_ndim t =? t_ndim x)%nat); [reflexivity|].
+  destruct (t_ndim t =? 0)%nat eqn:E; [apply Nat.eqb_eq in E; lia|].
+  rewrite (list_eqb_feq32_nan _ _ w I NW). apply andb_false_r.
+Qed.
+
+Theorem roundtrip_compares_equal t : wf_table' t = true -> nan_free t = true ->
+  exists t', of_bytes (to_bytes t) = Ok t' /\ read_bytes (to_bytes t) = Ok t' /\
+             table_op_eq t' t = true /\ table_op_eq t t' = true.
+Proof.
+  intros W NF. destruct (roundtrip_full t W) as (t' & E1 & E2 & Q). exists t'.
+  destruct (reload_compares_equal t t' Q NF). auto.
+Qed.
